@@ -183,7 +183,101 @@ def replay_array(p):
     return bool(msgs), '; '.join(msgs[:3]) or 'array output agrees with own + delayed background'
 
 
-REPLAYS = {'array': replay_array}
+def job_resync(num_pols, op, start_flag):
+    """one clock operation on an array from an ARBITRARY pre-state (as after a request that failed part-way: background
+    streams advanced, some antenna streams advanced, caches filled, start flag in either state): afterwards all clocks
+    are at the requested instant, the carried-over background is gone and the next request is aligned from there"""
+    recs = []
+    tag = f"C15:resync:{(num_pols, op, start_flag)}"
+    delays = [0, 2]
+    t0, sr, fch1, f0, lvl, tarr, g = (Sym(z3.Real(n)) for n in ('t0', 'sr', 'fch1', 'f_start', 'level', 't_arr', 'gap'))
+    pre = [sr.t > 0]
+    dt = 1 / sr.t
+    n = 4
+    with volt_patches(proxy=proxy()):
+        arr = A.MultiAntennaArray(num_antennas=2, sample_rate=sr, fch1=fch1, ascending=True, num_pols=num_pols, delays=delays, t_start=t0, seed=5)
+        for ai, ant in enumerate(arr.antennas):
+            for st in ant.streams:
+                st.add_constant_signal(f0, 0, lvl)
+        for bg in arr.bg_streams:
+            bg.add_constant_signal(f0 * 2, 0, lvl)
+        arr.get_samples(3)
+        # arbitrary pre-state
+        arr.t_start, arr.start_obs = tarr, start_flag
+        k = 0
+        for bg in arr.bg_streams:
+            bg.t_start, bg.start_obs = Sym(z3.Real(f'tb{k}')), False
+            k += 1
+        for ant in arr.antennas:
+            ant.t_start = Sym(z3.Real(f'ta{k}'))
+            ant.bg_cache = [npx.sarr([Sym(z3.Real(f'junk{k}_{i}')) for i in range(ant.delay)]) for _ in range(2)]
+            for st in ant.streams:
+                st.t_start, st.start_obs = Sym(z3.Real(f'ts{k}')), False
+                k += 1
+        if op == 'set_time':
+            arr.set_time(g)
+            want = g.t
+        elif op == 'add_time':
+            arr.add_time(g)
+            want = tarr.t + g.t
+        else:
+            arr.reset_start()
+            want = tarr.t
+        clocks = [arr.t_start] + [bg.t_start for bg in arr.bg_streams] + [ant.t_start for ant in arr.antennas] + [st.t_start for ant in arr.antennas for st in ant.streams]
+        out = arr.get_samples(n)
+    pairs = [((lift(c), RV(0)), (want, RV(0))) for c in clocks]
+    mx = max(delays)
+    two_pi = RV(TWO_PI)
+    for i in range(2):
+        for pol in range(num_pols):
+            for j in range(n):
+                own = lvl.t * UF('COS')(two_pi * ((f0.t - fch1.t) * (want + RV(j) * dt)) + RV(0))
+                tb = want + RV(j + mx - delays[i]) * dt
+                bgv = lvl.t * UF('COS')(two_pi * ((2 * f0.t - fch1.t) * tb) + RV(0))
+                pairs.append((cparts(out[i, pol, j]), (own + bgv, RV(0))))
+    pl = dict(fn='resync', num_pols=num_pols, op=op, start_flag=start_flag)
+    dis = diff_terms(pairs)
+    r, m = core.check(pre + [z3.Or(*dis)] if dis else [z3.BoolVal(False)], timeout_ms=120000)
+    recs.append(q(tag, r, terms=len(dis)))
+    if r == 'sat':
+        recs.append(cex('C15:resync', f"after {op} on an array whose stream clocks / caches had diverged (start flag {start_flag}), the next request is not aligned at the requested instant", pl, name=tag))
+    return recs
+
+
+def replay_resync(p):
+    from setigen.voltage import antenna as an
+    delays = [0, 2]
+    arr = an.MultiAntennaArray(num_antennas=2, sample_rate=1000.0, fch1=0.0, ascending=True, num_pols=p['num_pols'], delays=delays, t_start=1.0, seed=1)
+    for ant in arr.antennas:
+        for st in ant.streams:
+            st.add_signal(lambda ts: np.asarray(ts) * 3.0)
+    for bg in arr.bg_streams:
+        bg.add_signal(lambda ts: np.asarray(ts) * 1000.0)
+    arr.get_samples(3)
+    arr.t_start, arr.start_obs = 5.0, p['start_flag']
+    for k, bg in enumerate(arr.bg_streams):
+        bg.t_start, bg.start_obs = 7.0 + k, False
+    for a, ant in enumerate(arr.antennas):
+        ant.t_start = 8.0 + a
+        ant.bg_cache = [np.full(ant.delay, 1e9), np.full(ant.delay, 1e9)]
+        for st in ant.streams:
+            st.t_start, st.start_obs = 9.5 + a, False
+    if p['op'] == 'set_time':
+        arr.set_time(20.0)
+        want = 20.0
+    elif p['op'] == 'add_time':
+        arr.add_time(0.5)
+        want = 5.5
+    else:
+        arr.reset_start()
+        want = 5.0
+    out = arr.get_samples(4)
+    exp = np.array([[[3.0 * (want + j / 1000.0) + 1000.0 * (want + (j + 2 - delays[i]) / 1000.0) for j in range(4)] for _ in range(p['num_pols'])] for i in range(2)])
+    bad = out.shape != exp.shape or not np.allclose(out, exp, rtol=1e-9, atol=1e-9)
+    return bad, f"{p['op']} (start flag {p['start_flag']}) from diverged clocks: next request gives {out[:, 0, :2].tolist()}, aligned from t={want} it would be {exp[:, 0, :2].tolist()}"
+
+
+REPLAYS = {'array': replay_array, 'resync': replay_resync}
 
 
 def main():
@@ -194,6 +288,10 @@ def main():
     ck.stubs = ['numpy Generator -> Z(seed, k)', 'cos -> uninterpreted']
     ck.assumptions = ['delays are symbolic integers in 0..dmax (every vector incl. all-zero, unsorted, repeated); request sizes > dmax', 'exact-real clock']
     jobs = [('job_twin', ())]
+    for npol_ in (1, 2):
+        for op_ in ('set_time', 'add_time', 'reset_start'):
+            for flag_ in (True, False):
+                jobs.append(('job_resync', (npol_, op_, flag_)))
     if ck.thorough:
         space = [(1, 1, 2), (2, 1, 2), (2, 2, 2), (3, 1, 2), (3, 2, 1), (2, 1, 3)]
         N = 8
